@@ -16,6 +16,24 @@ Three real functions are driven directly with synthetic operators (no source hoo
     (alpha below) to classes / comparison codes and judged by TLC in the trace specs.  Further seeded families
     (n = 1..40, spectra with repeated / zero / negative eigenvalues, gradients orthogonal to the lowest eigenspace,
     preconditioners exact .. poor, radii over 12 decades, general eigenbases) widen the input space.
+
+Contract clauses (only these raise VIOLATION; every one is shown to be able to fail by corrupted copies of valid
+traces validated in the same TLC run, see Binding):
+  cg_returns cg_step_type   the call returns one of the four step types
+  cg_inside                 norm in the configured inner product <= Delta (1 + 1e-8)
+  cg_on_boundary            'boundary' / 'neg curve'  =>  |norm/Delta - 1| <= 1e-8
+  cg_gross_norm             the two predicates above with allowance 5e-2 (separate name: not masked by a known finding)
+  cg_never_increases        model(step) <= 0
+  cg_beats_cauchy           iterations >= 1  =>  model(step) <= model(clipped Cauchy step)
+  cg_newton_residual        'interior'  =>  |g + H z| <= sqrt(max(cg_tol^2, ratio^2 g.g)) and inside
+  dog_returns dog_finite dog_inside dog_on_path
+  tre_returns (terminates within TRE_TIMEOUT) tre_finite tre_inside
+  tre_global_min            model(step) <= minimum over the ball (dense dual reference)
+  tre_certificate           More-Sorensen certificate (A + lam I) s = -b, lam >= max(0, -lambda_min), lam (Delta - |s|) = 0
+Mechanism clauses (drift_*, never fail the check): drift_path, drift_cauchy_out, drift_monotone, drift_tracking,
+  drift_branch, drift_lattice, drift_case.
+Case features for KNOWN_FINDINGS signatures: long_recurrence_path (cg); hard_case, near_hard, b_zero, zero_matrix,
+  tre_case, basis (treigen).
 """
 import contextlib
 import io
@@ -34,8 +52,9 @@ EPS = 2.220446049250313e-16
 
 # ------------------------------------------------------------------------------------------- alpha constants
 NTOL = 1e-8            # |norm/Delta - 1| <= NTOL  <=> "on the boundary"; norm/Delta <= 1 + NTOL <=> inside
-NTOL_REC_LONG = 1e-3   # same, recurrence mode, paths longer than SHORT iterations (see ASSUMPTIONS)
-SHORT = 4              # = MaxCG of the TLC path catalogue
+NTOL_GROSS = 5e-2      # backstop clause cg_gross_norm (kept separate so that a known finding on the 1e-8 clauses
+                       # for long recurrence-mode paths cannot mask a gross error)
+SHORT = 4              # = MaxCG of the TLC path catalogue; longer recurrence-mode paths carry long_recurrence_path=true
 MODEL_RTOL = 1e-9      # model value comparison (CG)
 TRE_MODEL_RTOL = 1e-8  # model value comparison (treigen: its own 1e-9 norm tolerance enters with factor <= 2)
 ROUND = 64 * EPS       # rounding of evaluating g.z + z.Hz/2 in float64, times (|H| |z|^2 + |g| |z|)
@@ -52,10 +71,9 @@ ASSUMPTIONS = [
     "eigen-form with cond(M) <= 1e6, so the M-norm is measured to ~1e-10 relative",
     "configured norm: use_preconditioned_inner_product_for_cg=False -> Euclidean; True -> sqrt(z.M z) with M = P^-1 "
     "(what trust_region_minimize passes as multiply_by_approx_hessian)",
-    "norm allowance |norm/Delta-1| <= 1e-8; in recurrence mode on paths longer than 4 CG iterations 1e-3: the solver "
-    "tracks z.M z by the recurrences of Gould et al., which are exact in exact arithmetic and are perturbed by the "
-    "loss of conjugacy of floating-point CG (observed <= 3e-5 on 5000 long paths; recorded as "
-    "recurrence_norm_dev_max); paths of <= 4 iterations (the TLC catalogue) are held to 1e-8 in both modes",
+    "norm allowance |norm/Delta-1| <= 1e-8 in both inner-product modes (clauses cg_inside, cg_on_boundary); the same "
+    "two predicates with allowance 5e-2 form the separate backstop clause cg_gross_norm; failing cases carry the "
+    "feature long_recurrence_path (recurrence mode and more than 4 CG iterations)",
     "model comparisons: rtol 1e-9 (treigen 1e-8) plus 64 eps (|H| |z|^2 + |g| |z|) evaluation rounding",
     "clipped Cauchy step = minimiser of the model along -P g inside the region measured in the configured norm, "
     "recomputed by the harness in numpy",
@@ -121,6 +139,12 @@ def random_spectrum(rng, n, kind):
             sig[j] = 0.0
         if rng.random() < 0.3:
             sig = [s * rng.choice([-1, 1]) for s in sig]
+    elif kind.startswith("negclusters"):  # K-1 distinct positive eigenvalues and one negative one
+        k = max(1, min(int(kind[11:]), n) - 1)
+        vals = sorted(10 ** rng.uniform(-2, 0) * (1 + 3 * j) for j in range(k))
+        sig = [vals[j % k] for j in range(n)]
+        if n > 1 or k == 1:
+            sig[0] = -10 ** rng.uniform(-2, 0)
     elif kind.startswith("clusters"):  # exactly K distinct positive eigenvalues: CG converges in K iterations
         k = min(int(kind[8:]), n)
         vals = sorted(10 ** rng.uniform(-2, 0) * (1 + 3 * j) for j in range(k))
@@ -270,7 +294,7 @@ def parse_log(log):
         if log[k][0] != "h":
             return None, None
         d = log[k][1]
-        if k + 2 < len(log) + 0 and log[k + 1][0] == "h" and k + 2 < len(log) and log[k + 2][0] == "p":
+        if k + 2 < len(log) and log[k + 1][0] == "h" and log[k + 2][0] == "p":
             its.append((d, True, log[k + 2][1]))
             k += 3
         elif k + 1 == len(log):
@@ -299,10 +323,11 @@ def abstract_cg(arr, delta, mode, cap, cg_tol, ratio, out):
     normg = float(onp.linalg.norm(g))
     tolsq = max(cg_tol ** 2, ratio * ratio * float(g @ g))
     long_rec = bool(mode) and it > SHORT
-    ntol = NTOL_REC_LONG if long_rec else NTOL
+    ntol = NTOL
 
     def q(v):
-        return float(g @ v + 0.5 * (v @ (H @ v)))
+        with onp.errstate(all="ignore"):
+            return float(g @ v + 0.5 * (v @ (H @ v)))
 
     def qallow(*vs):
         m = max(float(onp.linalg.norm(v)) for v in vs)
@@ -338,7 +363,7 @@ def abstract_cg(arr, delta, mode, cap, cg_tol, ratio, out):
                 e["small"] = bool(small)
                 e["dq"] = cmp_code(q(znew), q(zc), MODEL_RTOL * abs(q(zc)) + qallow(znew, zc))
                 nz = cfg_norm(znew, M, mode) / delta
-                e["tn"] = "in" if nz <= 1 + (NTOL_REC_LONG if (mode and j + 1 > SHORT) else NTOL) else "out"
+                e["tn"] = "in" if nz <= 1 + NTOL else "out"
                 zc, rprev = znew, rnew
             else:
                 e["cross"] = bool(pos)
@@ -363,7 +388,8 @@ def abstract_cg(arr, delta, mode, cap, cg_tol, ratio, out):
         cout = "zero" if not onp.any(cauchy) else "other"
     else:
         cout = "unclipped" if float(onp.linalg.norm(cauchy - d0)) <= 1e-9 * float(onp.linalg.norm(d0)) else "other"
-    ret = dict(k="ret", exit=typ, iters=it, nrm=norm_class(nrat, ntol) if finite else "out", res=bool(res_ok),
+    ret = dict(k="ret", exit=typ, iters=it, nrm=norm_class(nrat, ntol) if finite else "out",
+               nrmC=norm_class(nrat, NTOL_GROSS) if finite else "out", res=bool(res_ok),
                cmpC=cmp_code(qz, qC, MODEL_RTOL * abs(qC) + qallow(z if finite else zC, zC)),
                cmp0=cmp_code(qz, 0.0, qallow(z if finite else zC)), cauchyOut=cout)
     ev.append(ret)
@@ -441,7 +467,14 @@ def search_catalogue(catalogue, per_key, budget, rng, ns, maxcg):
             rec.update(pkind=rng.choice(["identity", "shift"]), shift=rec["sigma"][-1] * 10 ** rng.uniform(-2, 1),
                        ratio=10 ** rng.uniform(-7, -4))
             rec["gcoef"] = gcoef_spec(rng, rec["sigma"], "random", 10 ** rng.uniform(-6, 6))
-            rec["cg_tol"] = 1e-30
+            rec["cg_tol"] = 1e-150
+        if probes % 7 == 5:                         # K-1 positive clusters + one negative eigenvalue: negative curvature at iteration <= K
+            k = 1 + (probes // 7) % maxcg
+            rec = random_cg_recipe(rng, [n for n in ns if n >= k] or ns, flavour="negclusters%d" % k)
+            rec.update(pkind=rng.choice(["identity", "shift"]), ratio=1e-9, cg_tol=1e-150)
+            rec["shift"] = (abs(rec["sigma"][0]) + rec["sigma"][-1]) * 10 ** rng.uniform(0.01, 1)
+            gs = 10 ** rng.uniform(-6, 6)
+            rec["gcoef"] = [gs * rng.gauss(0, 1) * (10 ** rng.uniform(-4, -0.5) if sg < 0 else 1.0) for sg in rec["sigma"]]
         if probes % 11 == 0:                        # tiny-residual exit: |g| below cg_tol
             gn = math.sqrt(sum(v * v for v in rec["gcoef"])) or 1.0
             rec["cg_tol"] = gn * 10 ** rng.uniform(0.1, 3)
@@ -509,6 +542,57 @@ def free_cg_cases(rng, count, ns):
             dl = 1.0
         dl = min(RADIUS_MAX, max(RADIUS_MIN, dl))
         out.append(cg_case(rec, dl, mode, cap, "free"))
+    return out
+
+
+def converge_cg_cases(rng, count, ns):
+    """Positive (semi)definite operators, large radius, non-trivial preconditioners: the loop ends by the
+    residual test after a gradual decrease (exit 'interior' at a late iteration) or at the cap."""
+    out = []
+    while len(out) < count:
+        rec = random_cg_recipe(rng, [n for n in ns if n >= 3] or ns, flavour=rng.choice(["spd", "spd", "spd", "singular"]))
+        if rec["spectrum"] == "singular":
+            rec["sigma"] = sorted(abs(s) for s in rec["sigma"])
+            rec["gkind"] = "orth_low"                      # gradient in the range of H
+            rec["gcoef"] = gcoef_spec(rng, rec["sigma"], "orth_low", 10 ** rng.uniform(-6, 6))
+            if not any(rec["gcoef"]):
+                continue
+        gn = math.sqrt(sum(v * v for v in rec["gcoef"])) or 1.0
+        rec["ratio"] = 10 ** rng.uniform(-8, -2)
+        rec["cg_tol"] = float(rng.choice([1e-150, gn * 10 ** rng.uniform(-9, -3)]))
+        arr = build_cg(rec)
+        mode = bool(rng.getrandbits(1))
+        base = float(onp.linalg.norm(onp.linalg.pinv(arr["H"], rcond=1e-12) @ arr["g"])) or 1.0
+        dl = min(RADIUS_MAX, base * cfg_scale(arr["M"], mode) * 10 ** rng.uniform(0.5, 3))
+        out.append(cg_case(rec, dl, mode, rng.choice([10, 20, 50, 100]), "converge"))
+    return out
+
+
+def cfg_scale(M, mode):
+    return math.sqrt(float(onp.linalg.norm(M, 2))) if mode else 1.0
+
+
+def longpath_cg_cases(rng, count, ns):
+    """Boundary exits at a late iteration (mostly in recurrence mode): stresses the tracked-norm recurrences."""
+    out, tries = [], 0
+    while len(out) < count and tries < 20 * count:
+        tries += 1
+        rec = random_cg_recipe(rng, [n for n in ns if n >= 7] or ns, flavour=rng.choice(["spd", "spd", "indef"]))
+        rec["ratio"], rec["cg_tol"] = 1e-14, 1e-150
+        if rec["pkind"] == "exact":
+            rec.update(pkind="shift", shift=rec["sigma"][-1] * 10 ** rng.uniform(-3, 0))
+        arr = build_cg(rec)
+        mode = rng.random() < 0.75
+        cap = rng.choice([30, 60, 100, 200])
+        pr = probe_path(arr, mode, cap, rec["cg_tol"], rec["ratio"])
+        if pr is None or len(pr["norms"]) < 6:
+            continue
+        norms = pr["norms"]
+        j = rng.randrange(5, len(norms))
+        lo = max(norms[:j])
+        if not (norms[j] > lo and RADIUS_MIN < norms[j] < RADIUS_MAX):
+            continue
+        out.append(cg_case(rec, lo + (norms[j] - lo) * rng.uniform(0.02, 0.98), mode, cap, "longpath"))
     return out
 
 
@@ -794,7 +878,9 @@ def run_tre(c):
     val, lamref, cls = trs_reference(A, b, delta)
     sig, V = cls["sig"], cls["V"]
     symB = bool(onp.allclose(onp.abs(V[0, :]), onp.abs(V[:, 0]), atol=1e-12))
-    feats = dict(tre_case=cls["branch"], hard_case=cls["branch"] == "hard",
+    # hard_case: the hard-case branch is (or, when the computed sig[0] is a rounding-level number, may be) taken
+    feats = dict(tre_case=cls["branch"],
+                 hard_case=bool(cls["branch"] == "hard" or (cls["lmin"] != "pos" and cls["pn"] == "LT")),
                  near_hard=bool(cls["branch"] == "secular" and cls["lam0"] > 0 and lamref - cls["lam0"] <= 1e-6 * cls["lam0"]))
     base = dict(lmin=cls["lmin"], perp=cls["perp"], pn=cls["pn"], symB=symB)
     try:
@@ -823,12 +909,10 @@ def run_tre(c):
         lam0 = cls["lam0"]
         if lam < lam0 - lt:
             lc = "below"
-        elif lam <= lam0 + lt:
-            lc = "lam0" if lam0 > lt else "zero"
-        else:
-            lc = "above"
-        if lam0 <= lt and abs(lam) <= lt:
-            lc = "zero"
+        elif cls["lmin"] == "neg":                      # lam0 = -lambda_min > 0
+            lc = "lam0" if lam <= lam0 + lt else "above"
+        else:                                           # lam0 = 0 up to the code's eps
+            lc = "zero" if lam <= lt else "above"
         obs["lam"] = lc
         m = float(0.5 * s @ (A @ s) + s @ b)
         rmax = max(ns_, delta if obs["nrm"] != "in" else ns_)
@@ -839,9 +923,9 @@ def run_tre(c):
 
 
 def tre_cases(rng, tier, ns):
-    plan = dict(interior=60, secular=140, hard=40, hard_exact=10, near_hard=3, b_zero=3, zero_matrix=2, any=120) \
+    plan = dict(interior=100, secular=220, hard=50, hard_exact=12, near_hard=3, b_zero=3, zero_matrix=2, any=200) \
         if tier == "quick" else \
-        dict(interior=500, secular=1500, hard=400, hard_exact=60, near_hard=8, b_zero=10, zero_matrix=4, any=1500)
+        dict(interior=4000, secular=12000, hard=2400, hard_exact=400, near_hard=8, b_zero=10, zero_matrix=4, any=12000)
     cases = []
     for want, k in plan.items():
         for _ in range(k):
@@ -886,6 +970,66 @@ def subspace_tre_cases(rng, count, ns):
                         delta=float(scale * 10 ** rng.uniform(-4, 4)),
                         arrays=dict(A=(0.5 * (Hr + Hr.T)).tolist(), b=gr.tolist())))
     return out
+
+
+# ------------------------------------------------------------------------------------------- fixed witnesses
+def witness_cases():
+    """Deterministic inputs of the defects found with this check (kept in every run so that a known-finding entry
+    or a fix is exercised every time)."""
+    sig = [10 ** (4 * j / 19) for j in range(20)]
+    cg = [dict(family="cg", origin="witness", n=20, basis="diagonal", qseed=0, sigma=sig, spectrum="spd", gkind="ones",
+               gcoef=[1.0] * 20, pkind="identity", cg_tol=1e-150, ratio=1e-14, mode=True, cap=200,
+               delta=0.99 * math.sqrt(sum(1.0 / s ** 2 for s in sig)))]
+    tre = [
+        # hard case, general eigenbasis (row instead of column eigenvector)
+        dict(family="treigen", origin="synthetic", want="witness_hard", n=3, sigma=[-2.0, 1.0, 3.0], spectrum="indef",
+             basis="general", qseed=7, gcoef=[0.0, 1.0, -0.5], delta=10.0),
+        # hard case with p exactly orthogonal to z: sign(0) = 0 -> division by zero
+        dict(family="treigen", origin="synthetic", want="witness_hard_exact", n=3, sigma=[-1.0, 2.0, 3.0], spectrum="indef",
+             basis="diagonal", qseed=0, gcoef=[0.0, 1.0, 1.0], delta=5.0),
+        # nearly hard case: the secular iteration cannot reach |p|/Delta - 1 <= 1e-9 and never stops
+        dict(family="treigen", origin="synthetic", want="witness_near_hard", n=5, sigma=[-1.0, 0.5, 1.0, 3.0, 5.0],
+             spectrum="indef", basis="general", qseed=0, gcoef=[1e-9, 0.3, -0.2, 0.1, 0.2], delta=1.0),
+        # zero matrix: eps = 0
+        dict(family="treigen", origin="synthetic", want="witness_zero_matrix", n=1, sigma=[0.0], spectrum="singular",
+             basis="diagonal", qseed=0, gcoef=[1.0], delta=2.0),
+    ]
+    return cg, tre
+
+
+# ------------------------------------------------------------------------------------------- binding self-test
+SELFTEST_ID = 9000000
+
+
+class Binding:
+    """Corrupted copies of valid traces ride along in the same TLC validation; TLC must name the clause.
+    (Vacuity control of the trace specs: a clause that cannot fail is a machinery error, exit 2.)"""
+
+    def __init__(self):
+        self.expect = {}     # id -> set of clause names that must be reported
+        self.got = {}
+
+    def add(self, traces, base, mutate, clauses):
+        t = json.loads(json.dumps(base))
+        mutate(t)
+        t["id"] = SELFTEST_ID + len(self.expect)
+        self.expect[t["id"]] = set(clauses)
+        traces.append(t)
+
+    def wrap(self, on_fail):
+        def f(tid, l, clause):
+            if tid >= SELFTEST_ID:
+                self.got.setdefault(tid, set()).add(clause)
+            else:
+                on_fail(tid, l, clause)
+        return f
+
+    def finish(self, rep):
+        missing = {t: sorted(c - self.got.get(t, set())) for t, c in self.expect.items() if c - self.got.get(t, set())}
+        rep.coverage["binding_selftest"] = dict(corrupted_traces=len(self.expect), clauses_named=sum(len(v) for v in self.got.values()))
+        rep.coverage["traces_validated_against_impl"] -= len(self.expect)
+        if missing:
+            rep.machinery("binding self-test: corrupted traces not rejected: %s" % missing)
 
 
 # ------------------------------------------------------------------------------------------- main
@@ -942,13 +1086,17 @@ def main(tier, replay=None):
             rep.add_tlc(gen)
             for b in gen.payloads("BEH"):
                 catalogue.add((b["mode"], b["cap"], b["exit"], b["iters"]))
-        found, missing, probes = search_catalogue(catalogue, 3 if tier == "quick" else 12,
-                                                  400 if tier == "quick" else 4000, rng, ns, maxcg)
+        found, missing, probes = search_catalogue(catalogue, 4 if tier == "quick" else 25,
+                                                  700 if tier == "quick" else 8000, rng, ns, maxcg)
         cg_runs += found
         rep.coverage["cg_catalogue"] = dict(entries=len(catalogue), realised=len(catalogue) - len(missing),
                                             uncovered=[list(k) for k in missing], probes=probes,
                                             runs=len(found))
-        for c in free_cg_cases(rng, 250 if tier == "quick" else 6000, ns):
+        fam = free_cg_cases(rng, 300 if tier == "quick" else 24000, ns) \
+            + converge_cg_cases(rng, 150 if tier == "quick" else 10000, ns) \
+            + longpath_cg_cases(rng, 100 if tier == "quick" else 8000, ns)
+        wcg, wtre = witness_cases()
+        for c in fam + wcg:
             ev, nums, _ = run_cg_case(c)
             cg_runs.append((c, ev, nums))
         # ---- dogleg instances
@@ -959,12 +1107,12 @@ def main(tier, replay=None):
             insts = dg.payloads("BEH")
             rep.coverage["dogleg_lattice_instances"] = len(insts)
             for inst in insts:
-                for _ in range(2 if tier == "quick" else 6):
+                for _ in range(3 if tier == "quick" else 12):
                     dog_cases.append(dogleg_lattice_case(inst, rng))
-        for _ in range(300 if tier == "quick" else 6000):
+        for _ in range(500 if tier == "quick" else 40000):
             dog_cases.append(dogleg_random_case(rng, ns))
         # ---- treigen instances
-        tre = tre_cases(rng, tier, ns) + subspace_tre_cases(rng, 30 if tier == "quick" else 400, ns)
+        tre = wtre + tre_cases(rng, tier, ns) + subspace_tre_cases(rng, 30 if tier == "quick" else 3000, ns)
 
     # =========================================================================== CG traces
     traces, cases = [], {}
@@ -982,7 +1130,7 @@ def main(tier, replay=None):
         r = ev[-1]
         k = "%s@%s" % (r["exit"], "recurrence" if c["mode"] else "direct")
         exits[k] = exits.get(k, 0) + 1
-        for cl in ("cg_inside", "cg_never_increases", "cg_step_type"):
+        for cl in ("cg_inside", "cg_gross_norm", "cg_never_increases", "cg_step_type"):
             rep.count_clause(cl)
         rep.count_clause("cg_on_boundary", 1 if r["exit"] in ("boundary", "neg curve") else 0)
         rep.count_clause("cg_newton_residual", 1 if r["exit"] == "interior" else 0)
@@ -995,6 +1143,9 @@ def main(tier, replay=None):
             rep.sample(dict(family="cg", n=c["n"], spectrum=c.get("spectrum"), pkind=c.get("pkind"), delta=c["delta"],
                             mode=c["mode"], cap=c["cap"], events=ev[-3:], numbers={k: v for k, v in nums.items()}))
     rep.coverage["cg_exit_kinds"] = exits
+    rep.coverage["cg_tiny_residual_exits"] = sum(1 for _, e, _ in cg_runs if e and e[0]["k"] == "tiny")
+    rep.coverage["cg_origins"] = {o: sum(1 for c, _, _ in cg_runs if c.get("origin") == o)
+                                  for o in ("catalogue", "free", "converge", "longpath", "witness")}
     rep.coverage["cg_iterations_max"] = max([e[-1]["iters"] for _, e, _ in cg_runs if e] or [0])
     rep.coverage["recurrence_norm_dev_max"] = devmax
     rep.coverage["recurrence_norm_dev_gt_1e-8"] = dev_gt
@@ -1007,8 +1158,21 @@ def main(tier, replay=None):
         c2["observed"] = tr_["ev"][-1]
         c2["long_recurrence_path"] = bool(c["mode"] and tr_["ev"][-1]["iters"] > SHORT)
         rep.fail(clause, c2)
+    bind = Binding()
+    if traces and not replay:
+        def first(pred):
+            return next((t for t in traces if t["id"] < SELFTEST_ID and pred(t["ev"][-1])), None)
+        b = first(lambda r: r["exit"] == "boundary" and r["nrm"] == "on")
+        if b:
+            bind.add(traces, b, lambda t: t["ev"][-1].update(nrm="out"), ["cg_inside", "cg_on_boundary"])
+            bind.add(traces, b, lambda t: t["ev"][-1].update(nrmC="out"), ["cg_gross_norm"])
+            bind.add(traces, b, lambda t: t["ev"][-1].update(nrm="in"), ["cg_on_boundary"])
+            bind.add(traces, b, lambda t: t["ev"][-1].update(cmpC="GT"), ["cg_beats_cauchy"])
+            bind.add(traces, b, lambda t: t["ev"][-1].update(cmp0="GT"), ["cg_never_increases"])
+            bind.add(traces, b, lambda t: t["ev"][-1].update(exit="interior", res=False), ["cg_newton_residual"])
+            bind.add(traces, b, lambda t: t["ev"][-1].update(exit="elsewhere"), ["cg_step_type"])
     if traces:
-        trace.validate("SteihaugCGTrace.tla", "SteihaugCGTrace.cfg", traces, rep, on_fail=cg_fail, label="cg-trace")
+        trace.validate("SteihaugCGTrace.tla", "SteihaugCGTrace.cfg", traces, rep, on_fail=bind.wrap(cg_fail), label="cg-trace")
 
     # =========================================================================== dogleg traces
     dtr, dcases = [], {}
@@ -1036,10 +1200,16 @@ def main(tier, replay=None):
         c, (cp, nw, tr_, M) = dcases[t]
         c2 = dict(c)
         c2["arrays"] = dict(cp=cp.tolist(), nw=nw.tolist(), M=onp.asarray(M).tolist())
-        c2["observed"] = next(x for x in dtr if x["id"] == t)
+        c2["observed"] = {k: v for k, v in next(x for x in dtr if x["id"] == t).items() if k != "id"}
         rep.fail(clause, c2)
+    if dtr and not replay:
+        b = next((o for o in dtr if o["inside"] and o["onPath"] and o["finite"]), None)
+        if b:
+            bind.add(dtr, b, lambda t: t.update(inside=False), ["dog_inside"])
+            bind.add(dtr, b, lambda t: t.update(onPath=False), ["dog_on_path"])
+            bind.add(dtr, b, lambda t: t.update(finite=False), ["dog_finite"])
     if dtr:
-        trace.validate("DoglegTrace.tla", "DoglegTrace.cfg", dtr, rep, on_fail=dog_fail, label="dogleg-trace")
+        trace.validate("DoglegTrace.tla", "DoglegTrace.cfg", dtr, rep, on_fail=bind.wrap(dog_fail), label="dogleg-trace")
 
     # =========================================================================== treigen traces
     ttr, tcases = [], {}
@@ -1082,11 +1252,22 @@ def main(tier, replay=None):
         c2, A, b, nums = tcases[t]
         c3 = dict(c2)
         c3["arrays"] = dict(A=A.tolist(), b=b.tolist())
-        c3["observed"] = next(x for x in ttr if x["id"] == t)
+        c3["observed"] = {k: v for k, v in next(x for x in ttr if x["id"] == t).items() if k != "id"}
         c3["numbers"] = nums
         rep.fail(clause, c3)
+    if ttr and not replay:
+        b = next((o for o in ttr if o["finite"] and o["stat"] and o["mcmp"] != "GT" and o["nrm"] == "on" and o["lam"] == "above"), None)
+        if b:
+            bind.add(ttr, b, lambda t: t.update(mcmp="GT"), ["tre_global_min"])
+            bind.add(ttr, b, lambda t: t.update(stat=False), ["tre_certificate"])
+            bind.add(ttr, b, lambda t: t.update(lam="below"), ["tre_certificate"])
+            bind.add(ttr, b, lambda t: t.update(nrm="in"), ["tre_certificate"])
+            bind.add(ttr, b, lambda t: t.update(nrm="out"), ["tre_inside", "tre_certificate"])
+            bind.add(ttr, b, lambda t: t.update(finite=False), ["tre_finite"])
     if ttr:
-        trace.validate("TREigenTrace.tla", "TREigenTrace.cfg", ttr, rep, on_fail=tre_fail, label="treigen-trace")
+        trace.validate("TREigenTrace.tla", "TREigenTrace.cfg", ttr, rep, on_fail=bind.wrap(tre_fail), label="treigen-trace")
+    if not replay:
+        bind.finish(rep)
 
     nd = len({json.dumps([e.get("exit", e.get("k")) for e in t["ev"]] + [t["mode"], t["cap"]]) for t in traces}) \
         + len({json.dumps([o["cVt"], o["cVn"], o["nVt"], o["kinds"]]) for o in dtr}) \
